@@ -31,7 +31,7 @@ fn cfg(rng: &mut Rng) -> Cfg {
 
 pub fn run(ctx: &mut Ctx) {
     let scratch = Scratch::new();
-    for case in ctx.cases(150, 30_000) {
+    for case in ctx.cases(600, 60_000) {
         let mut rng = ctx.rng(case);
         let uni = Universe::new(&mut rng, 1);
         let na = rng.range(0, 24);
